@@ -608,3 +608,54 @@ class service_transparency:
         return out
 
     known = {"the-replaced-__new__-reports-the-constructors-real-parameters": ("C04-service-classes-accept-any-arguments-eagerly", lambda c: z3.BoolVal(True))}
+
+
+# ---- UnboundStepwise: the rule table a template is built from -------------------------------------------------------------------------
+STEP = "cobald.controller.stepwise"
+UStep = TObj(STEP + ":UnboundStepwise", base=TAny(), rules=TAny(), _thresholds=TAny())
+
+
+def _mk_ustep_s(nrules, nargs, kwkeys):
+    class shape:
+        __doc__ = ("skeleton with %d rule(s): .s(%d positional, keywords %r) is a NEW leaf template of Stepwise holding the base rule, the rules registered SO FAR "
+                   "(in registration order), then the arguments; signature checked at once" % (nrules, nargs, list(kwkeys)))
+        body_key = STEP + ":UnboundStepwise.s"
+        params = {"self": UStep, "*args": lambda ctx: _sym_tuple("arg", nargs), "**kwargs": lambda ctx: _sym_kw("kw", kwkeys)}
+        result = TAny()
+        has_events = True
+
+        def setup(ctx, I, bound):
+            rules = VList([VTuple([SV(fresh_val("threshold%d" % k), TNum()), SV(fresh_val("rule%d" % k), TAny())]) for k in range(nrules)])
+            I.setattr(bound["self"], "rules", rules)
+            ctx.ghost["c04_rules"] = list(rules.items)
+        setup = staticmethod(setup)
+
+        def ensures(c, self, args, kwargs, result):
+            ctx = c.ctx
+            rv = c.view_term(result.t, PartialT, c.new_heap)
+            got = _field(ctx, rv, "args")
+            rules = ctx.ghost["c04_rules"]
+            ok = isinstance(got, (VTuple, VList)) and len(got.items) == 1 + nrules + nargs
+            facts = []
+            if ok:
+                facts.append(_tm(ctx, got.items[0]) == c.old(self).base.t)
+                for k in range(nrules):
+                    pair = ctx.from_val(got.items[1 + k]) if isinstance(got.items[1 + k], SV) else got.items[1 + k]
+                    facts.append(_b(isinstance(pair, VTuple) and len(pair.items) == 2))
+                    if isinstance(pair, VTuple) and len(pair.items) == 2:
+                        facts += [_tm(ctx, pair.items[0]) == _tm(ctx, rules[k].items[0]), _tm(ctx, pair.items[1]) == _tm(ctx, rules[k].items[1])]
+                facts += [_tm(ctx, a) == _tm(ctx, b) for a, b in zip(got.items[1 + nrules:], list(args))]
+            stepwise_cls = ctx.to_val(ctx.repo.get(STEP + ":Stepwise")).t
+            checked = ctx.ghost.get("c04_checked", [])
+            return {"a-new-leaf-template-of-Stepwise": c.And(rv.cls_is(PM + ":Partial"), Z.Val.id(result.t) >= ctx.alloc0, rv.ctor.t == stepwise_cls, Z.Val.b(rv.leaf.t)),
+                    "holding-base-then-the-rules-registered-so-far-then-the-arguments": c.And(*[_b(f) for f in facts]) if ok else False,
+                    "keywords-as-given": _b(_same_kw(ctx, _field(ctx, rv, "kwargs"), dict(kwargs))),
+                    "its-signature-is-checked-at-once": _b(len(checked) == 1 and z3.eq(z3.simplify(_tm(ctx, checked[0])), z3.simplify(result.t))),
+                    "the-skeleton-is-not-modified": c.unchanged(self, "base", "rules", "_thresholds")}
+
+        raises = {"TypeError": lambda c, self, args, kwargs, exc: c.n_events() == 1}
+    return shape
+
+
+for _a in [(0, 0, ()), (2, 0, ("interval",)), (1, 1, ())]:
+    contract(STEP + ":UnboundStepwise.s#rules(%d)+args(%d)+kw(%s)" % (_a[0], _a[1], ",".join(_a[2])), props=["C04"])(_mk_ustep_s(*_a))
